@@ -68,7 +68,7 @@ def run_shard(desc, R, tier):
 
 def eval_point(pt, R):
     import spectrum
-    x = np.asarray(pt['x'])
+    x = A.layout(pt, pt['x'])
     m, nf, fs = int(pt['m']), int(pt['NFFT']), float(pt['fs'])
     N = len(x)
     cplx = np.iscomplexobj(x)
@@ -95,7 +95,7 @@ def eval_point(pt, R):
     R.point(pt)
     R.calls()
     try:
-        xin = x.copy()
+        xin = A.clone(x)       # keeps a strided view strided
         psd, A_, k_ = spectrum.minvar(xin, m, sampling=fs, NFFT=nf)
         psd = np.asarray(psd)
         R.check(np.array_equal(xin, x), 'input_unchanged', feats, pt, xin, x, 'minvar modified its input array')
